@@ -843,7 +843,7 @@ impl Arena {
         Freelist::Optimistic => match self.alloc_slow_path_optimistic(size) {
           Ok(bytes) => return Ok(Some(bytes)),
           Err(e) => {
-            if i == self.max_retries - 1 {
+            if i == self.max_retries.saturating_sub(1) {
               return Err(e);
             }
           }
@@ -851,7 +851,7 @@ impl Arena {
         Freelist::Pessimistic => match self.alloc_slow_path_pessimistic(size) {
           Ok(bytes) => return Ok(Some(bytes)),
           Err(e) => {
-            if i == self.max_retries - 1 {
+            if i == self.max_retries.saturating_sub(1) {
               return Err(e);
             }
           }
@@ -1006,7 +1006,7 @@ impl Arena {
               return Ok(Some(bytes));
             }
             Err(e) => {
-              if i == self.max_retries - 1 {
+              if i == self.max_retries.saturating_sub(1) {
                 return Err(e);
               }
             }
@@ -1019,7 +1019,7 @@ impl Arena {
               return Ok(Some(bytes));
             }
             Err(e) => {
-              if i == self.max_retries - 1 {
+              if i == self.max_retries.saturating_sub(1) {
                 return Err(e);
               }
             }
@@ -1160,7 +1160,7 @@ impl Arena {
             return Ok(Some(allocated));
           }
           Err(e) => {
-            if i == self.max_retries - 1 {
+            if i == self.max_retries.saturating_sub(1) {
               return Err(e);
             }
           }
@@ -1171,7 +1171,7 @@ impl Arena {
             return Ok(Some(allocated));
           }
           Err(e) => {
-            if i == self.max_retries - 1 {
+            if i == self.max_retries.saturating_sub(1) {
               return Err(e);
             }
           }
